@@ -71,11 +71,16 @@ def _generate_long(rng, tier):
     n = rng.choice([60, 110, 200, 300, 400]) if tier == "quick" else rng.choice([110, 200, 300, 400, 500])
     if name == "catalan":
         n = min(n, 40)
+    backends = ["rescaledlm", "earleylm", "rescaled_logp"]
+    if rng.random() < 0.35:
+        # medium contexts with small (but representable) probabilities for the
+        # cubic-time CKY LM as well: relative accuracy must not degrade
+        n = rng.choice([10, 16, 24])
+        backends = ["ckylm", "earleylm", "rescaledlm"]
     x = gen.named_long_string(name, rng, n)
     scheds = [draw_schedule(rng, ab, gen, identity=rng.random() < 0.3)]
     return {"property": ID, "kind": "long", "grammar": ab, "name": name, "q": q, "string": x,
-            "schedules": scheds, "positions_seed": rng.getrandbits(32),
-            "backends": ["rescaledlm", "earleylm", "rescaled_logp"]}
+            "schedules": scheds, "positions_seed": rng.getrandbits(32), "backends": backends}
 
 
 # ---------------------------------------------------------------------------
@@ -339,7 +344,7 @@ def _execute_long(sc):
                                   want=repr(wv), schedule=si)
         rng = rng_for(sc.get("positions_seed", 0), si)
         for be in sc["backends"]:
-            if be not in ("earleylm", "rescaledlm"):
+            if be not in ("earleylm", "rescaledlm", "ckylm"):
                 continue
             if be == "earleylm" and want_logw < -600:
                 continue  # the plain parser is expected to underflow there
